@@ -9,6 +9,8 @@ counter-example shows that the restriction is necessary: known finding C13-rss-d
 sum w (B(beta0 - beta_lam))^2 <= F(beta0) - F(beta_lam) for every beta0 in the null space of P (straight lines for the
 default penalty, only 0 for a ridge penalty); lam = 0 is WLS with R alone; edof = sum a_j / (1 + lam gamma_j) is
 non-increasing (partial: under a simultaneous diagonalisation).
+The smoothing parameters reach the model by every public route in turn (on the term, model keyword next to explicit terms,
+gam.lam = …, set_params, gridsearch candidates, one scalar keyword with explicit terms and with terms='auto'; always incl. exactly 0).
 Correspondence / oracle: sequences of REAL fits (LinearGAM and GAM normal/identity, tol 1e-10, random term mixes without
 constraints, weights incl. zeros) along lam = 0, 1e-6 … 1e6 (12 decades) — each penalty separately (others fixed) and all
 lams jointly: edof non-increasing, F non-decreasing, J non-increasing, RSS non-decreasing up to the fixed-penalty slack,
@@ -35,6 +37,15 @@ SQRT_EPS = np.sqrt(EPS)
 # ---------------------------------------------------------------------------------------------------------
 # generation
 # ---------------------------------------------------------------------------------------------------------
+ROUTES = ('term',            # on the term itself (constructor / attribute of the term), model built from the terms
+          'kw',              # model keyword lam=[…] next to explicit terms
+          'attr',            # gam.lam = […] on an existing model
+          'set_params',      # gam.set_params(lam=[…])
+          'gridsearch',      # the whole path as gridsearch candidates (return_scores=True gives every fitted candidate)
+          'kw-scalar',       # model keyword with one scalar for all penalties (joint path, explicit terms); includes exactly 0
+          'kw-scalar-auto')  # the same with terms='auto' (one default spline per feature)
+
+
 def gen_paths(rng, tier):
     npath = 400 if tier == 'quick' else 3000
     paths = []
@@ -49,7 +60,17 @@ def gen_paths(rng, tier):
             default_spline=(i % 5 == 0),
             # one penalty of a model with several penalised terms swept to 1e8 / 1e9 while the others stay at ordinary values
             multi_sweep=(i % 5 == 1),
+            # the public route by which the smoothing parameters reach the model (the property is about any smoothing
+            # parameter however it is supplied)
+            route=ROUTES[i % len(ROUTES)],
         ))
+    for c in paths:
+        if c['route'].startswith('kw-scalar'):
+            c['kind'], c['multi_sweep'] = 'joint', False
+        if c['route'] == 'kw-scalar-auto':
+            c['default_spline'] = False
+            if c['n_mode'] in ('m+1', 'small'):
+                c['n_mode'] = 'mid'
     return paths
 
 
@@ -96,11 +117,20 @@ def _problem(case, pygam):
     from pygam.terms import SplineTerm, Intercept, TermList
     rng = random.Random(case['seed'])
     rs = np.random.default_rng(case['seed'])
-    if case['default_spline']:
+    if case.get('route') == 'kw-scalar-auto':
+        # terms='auto': one default spline term per feature (n_splines = 20, lam = 0.6) + intercept
+        pr = termgen.gen_program(rng, pygam, n_rows=260, n_query=8, allow_constraints=False, allow_periodic_penalty=False,
+                                 max_terms=1, tensor_prob=0.0)
+        tl = TermList(*[SplineTerm(j) for j in range(pr.X.shape[1])], Intercept())
+        tl.compile(pr.X)
+    elif case['default_spline']:
         # the documented default: s(0) with the 'auto' second-difference penalty (+ intercept)
         pr = termgen.gen_program(rng, pygam, n_rows=260, n_query=8, allow_constraints=False, allow_periodic_penalty=False,
                                  max_terms=1, tensor_prob=0.0)
-        tl = TermList(SplineTerm(0, n_splines=rng.choice([6, 10, 20]), lam=0.6), Intercept())
+        # (n_splines, spline_order): the default cubic basis in several sizes, and the smallest bases on which a second
+        # difference exists (3 coefficients) — the limit is a straight line in x for every order (Greville)
+        nsp, order = rng.choice([(6, 3), (10, 3), (20, 3), (4, 3), (3, 2), (3, 1), (5, 2)])
+        tl = TermList(SplineTerm(0, n_splines=nsp, spline_order=order, lam=0.6), Intercept())
         tl.compile(pr.X)
     elif case.get('multi_sweep'):
         from pygam.terms import FactorTerm
@@ -168,6 +198,8 @@ def _problem(case, pygam):
         unit = {}
         for key, v in base.items():
             unit[key] = v if (v > 0 and rng.random() < 0.7) else rng.choice([0.6, 1.0, 0.015625, 2.5])
+        if str(case.get('route', '')).startswith('kw-scalar'):
+            unit = {key: 1.0 for key in base}           # one scalar for every penalty
         fixed = {key: 0.0 for key in base}
         varied = 'joint'
     return dict(tl=tl, X=X, y=y, w=w, Xq=pr.Xq, slots=slots, unit=unit, fixed=fixed, varied=varied, m=m, n=n,
@@ -190,21 +222,86 @@ def _dense(M):
     return np.asarray(M.todense(), dtype=float) if hasattr(M, 'todense') else np.asarray(M, dtype=float)
 
 
-def _fit_at(prob, case, pygam, lam):
-    from harness.gen import fitgen
-    lams = {key: prob['fixed'][key] + lam * prob['unit'][key] for key in prob['unit']}
-    terms = _terms_with(prob['tl'], lams)
+def _flat(prob, lams):
+    """the lams in the order in which pyGAM flattens them: term order, marginals of a tensor term in order, penalties in order"""
+    return [float(lams[(path, k_)]) for path, k_, _lam, _pen in prob['slots']]
+
+
+def _make_model(prob, case, pygam, lams, route):
+    """an unfitted model carrying the requested lams, supplied by `route`"""
     kw = dict(tol=1e-10, max_iter=300, fit_intercept=prob['has_intercept'])
     if case['cls'] == 'GAM':
         kw.update(distribution='normal', link='identity')
-    gam = getattr(pygam, case['cls'])(terms, **kw)
-    l2_before = getattr(gam, '_constraint_l2', None)
-    status, out = fitgen.fit_quiet(gam, prob['X'], prob['y'], prob['w'])
+    cls = getattr(pygam, case['cls'])
+    flat = _flat(prob, lams)
+    if route == 'term':
+        return cls(_terms_with(prob['tl'], lams), **kw)
+    if route == 'kw':
+        return cls(copy.deepcopy(prob['tl']), lam=flat, **kw)
+    if route == 'kw-scalar':
+        assert len(set(flat)) == 1
+        return cls(copy.deepcopy(prob['tl']), lam=flat[0], **kw)
+    if route == 'kw-scalar-auto':
+        assert len(set(flat)) == 1
+        kw['fit_intercept'] = True
+        return cls(lam=flat[0], **kw)           # terms='auto'
+    gam = cls(copy.deepcopy(prob['tl']), **kw)
+    if route == 'attr':
+        gam.lam = flat
+    elif route == 'set_params':
+        gam.set_params(lam=flat)
+    else:
+        raise ValueError(route)
+    return gam
+
+
+def _gridsearch_models(prob, case, pygam, grid):
+    """route 'gridsearch': the whole path as candidates of one gridsearch on an existing model; -> {lam: fitted candidate}"""
+    import contextlib
+    import io
+    import warnings
+    from pygam.utils import flatten
+    base = _make_model(prob, case, pygam, {key: prob['fixed'][key] + prob['unit'][key] for key in prob['unit']}, 'term')
+    flats = [_flat(prob, {key: prob['fixed'][key] + lam * prob['unit'][key] for key in prob['unit']}) for lam in grid]
+    with warnings.catch_warnings():
+        warnings.simplefilter('ignore')
+        with contextlib.redirect_stdout(io.StringIO()):
+            kwf = {} if prob['w'] is None else dict(weights=prob['w'])
+            scores = base.gridsearch(prob['X'], prob['y'], lam=np.array(flats, dtype=float), return_scores=True, keep_best=False, progress=False, **kwf)
+    out = {}
+    for model in scores:
+        got = [float(v) for v in flatten(model.lam)]
+        for lam, fl in zip(grid, flats):
+            if lam not in out and len(got) == len(fl) and all(abs(g_ - f_) <= 1e-12 * max(1.0, abs(f_)) for g_, f_ in zip(got, fl)):
+                out[lam] = model
+                break
+    return out, getattr(base, '_constraint_l2', None)
+
+
+def _fit_at(prob, case, pygam, lam):
+    from harness.gen import fitgen
+    lams = {key: prob['fixed'][key] + lam * prob['unit'][key] for key in prob['unit']}
+    route = case.get('route', 'term')
+    cache = prob.get('gs_models')
+    if route == 'gridsearch' and cache is not None and lam in cache:
+        gam, l2_before = cache[lam], prob['gs_l2']
+        status, out = 'ok', ('' if (gam.logs_['diffs'] and gam.logs_['diffs'][-1] < gam.tol) else 'did not converge')
+    else:
+        if route == 'gridsearch':
+            route = 'set_params'            # fits outside the candidate grid (the limit)
+        try:
+            gam = _make_model(prob, case, pygam, lams, route)
+        except ValueError as e:
+            return dict(status='ValueError', msg=str(e)[:200])
+        l2_before = getattr(gam, '_constraint_l2', None)
+        status, out = fitgen.fit_quiet(gam, prob['X'], prob['y'], prob['w'])
     if status != 'ok':
         return dict(status=status, msg=out)
     coef = np.asarray(gam.coef_, dtype=float).ravel()
     if not np.isfinite(coef).all():
         return dict(status='nonfinite-coef', msg='')
+    if len(coef) != prob['m']:
+        return dict(status='coef-count', msg='model has %d coefficients, the requested terms have %d' % (len(coef), prob['m']))
     return dict(status='ok', conv=('did not converge' not in out), coef=coef, edof=float(gam.statistics_['edof']),
                 P=_dense(gam.terms.build_penalties()), B=_dense(gam.terms.build_columns(prob['X'])),
                 mu=np.asarray(gam.predict_mu(prob['X']), dtype=float), muq=np.asarray(gam.predict_mu(prob['Xq']), dtype=float),
@@ -310,6 +407,11 @@ def _worker_(case):
     Pfix = _dense(_terms_with(prob['tl'], prob['fixed']).build_penalties())
     R = Pfix + SQRT_EPS * np.eye(m)
     G = None
+    if case.get('route') == 'gridsearch':
+        try:
+            prob['gs_models'], prob['gs_l2'] = _gridsearch_models(prob, case, pygam, prob['grid'])
+        except ValueError as e:
+            return dict(case=case, status='ValueError', msg='gridsearch: ' + str(e)[:150], desc=prob['desc'])
     pts = []
     far_status = 'ok'
     for lam in prob['grid']:
@@ -396,17 +498,22 @@ def _worker_(case):
                 lim['d_line_q'] = float(np.abs(f['muq'] - lq).max() / (1 + np.abs(lq).max()))
             break
         res['limit'] = lim
-        if case['default_spline'] and n >= 2 * m:
-            # the documented default, enough data: far beyond the grid (lam = 1e11) the fit must still be the straight line
-            f = _fit_at(prob, case, pygam, 1e11)
-            if f['status'] == 'ok' and f['conv']:
-                x = prob['X'][:, 0]
-                keep = wv > 0
-                pc = np.polyfit(x[keep], y[keep], 1, w=np.sqrt(wv[keep]))
-                line = np.polyval(pc, x)
-                sc = 1 + np.abs(line[keep]).max()
-                res['far_line'] = dict(lam=1e11, fallback=f['fallback'], l2=f['l2'], d_line=float(np.abs(f['mu'] - line)[keep].max() / sc),
-                                       d_theory=float(np.abs(B0 @ _split_fit(B0, R, Pv, 1e11, wv, y) - line)[keep].max() / sc))
+    if case['default_spline'] and n >= 2 * m:
+        # the documented default, enough data: far beyond the grid (lam = 1e11) the fit must still be the straight line
+        f = _fit_at(prob, case, pygam, 1e11)
+        if f['status'] == 'ok' and f['conv']:
+            x = prob['X'][:, 0]
+            keep = wv > 0
+            pc = np.polyfit(x[keep], y[keep], 1, w=np.sqrt(wv[keep]))
+            line = np.polyval(pc, x)
+            sc = 1 + np.abs(line[keep]).max()
+            # the second-difference penalty written down independently (NumPy), scaled like the varied part
+            k_ = m - 1
+            D = np.diff(np.eye(k_), 2, axis=0)
+            Pind = np.zeros((m, m))
+            Pind[:k_, :k_] = D.T @ D * float(max(prob['unit'].values()))
+            res['far_line'] = dict(lam=1e11, fallback=f['fallback'], l2=f['l2'], d_line=float(np.abs(f['mu'] - line)[keep].max() / sc),
+                                   d_theory=float(np.abs(B0 @ _split_fit(B0, R, Pind, 1e11, wv, y) - line)[keep].max() / sc))
     # ---- driver operations: two points of the path
     if n * m <= 4000 and m <= 40:
         ops = []
@@ -562,6 +669,7 @@ def run(ctx):
         case = r['case']
         sig = dict(path=case)
         ctx.count('class', case['cls'])
+        ctx.count('route of the smoothing parameters', case.get('route', 'term'))
         ctx.count('varied', 'single (multi-term sweep)' if case.get('multi_sweep') else case['kind'])
         if r['status'] != 'ok':
             ctx.count('path status', r['status'])
